@@ -44,7 +44,9 @@ Definition hash_site_status : list (hsite * hstatus) := [
    get_mapping_generic and handed down by reference) and the side-effect map appear in *no* iteration site above --
    they are only looked up (`mapping.get(..)`, `.entry(..)`) or returned; resolve_on_end and resolve_on_else_or_end are only indexed by key
    (`entry`, `remove`), its inner maps are the `to_resolve` site; `types` / `types_map` of ModuleTypes: see the
-   ModuleTypes::new sites; parse_internal's `types` is moved into ModuleTypes::new. *)
+   ModuleTypes::new sites; parse_internal's `types` is moved into ModuleTypes::new; the two fields of ConstExprReindexer
+   (the re-indexer of constant expressions in element segments and table initialisers) are references to the func /
+   global id maps and are only looked up (`.get(&id)`). *)
 Definition hash_decls_reviewed : list (string * string * string * string) := [
     ("src/ir/module/mod.rs", "fn Module::encode_internal", "<return>", "(wasm_encoder::Module,HashMap<InjectType,Vec<Injection<'a>>>,)")
   ; ("src/ir/module/mod.rs", "fn Module::encode_internal", "side_effects", "HashMap::new()")
@@ -68,6 +70,8 @@ Definition hash_decls_reviewed : list (string * string * string * string) := [
   ; ("src/ir/module/mod.rs", "fn save_flagged_body_to_resolve", "to_resolve", "&mut HashMap<BlockID,HashMap<InstrumentationMode,InstrToInject<'a>>>")
   ; ("src/ir/module/mod.rs", "fn save_not_flagged_body_to_resolve", "resolve_on_end", "&mut HashMap<BlockID,HashMap<InstrumentationMode,InstrToInject<'a>>>")
   ; ("src/ir/module/mod.rs", "fn save_not_flagged_body_to_resolve_inner", "inner", "&mut HashMap<InstrumentationMode,InstrToInject<'a>>")
+  ; ("src/ir/module/mod.rs", "struct ConstExprReindexer", "func_mapping", "&'m HashMap<u32,u32>")
+  ; ("src/ir/module/mod.rs", "struct ConstExprReindexer", "global_mapping", "&'m HashMap<u32,u32>")
   ; ("src/ir/module/module_functions.rs", "fn LocalFunction::add_corrected_special_injections", "func_mapping", "&HashMap<u32,u32>")
   ; ("src/ir/module/module_functions.rs", "fn LocalFunction::add_corrected_special_injections", "global_mapping", "&HashMap<u32,u32>")
   ; ("src/ir/module/module_functions.rs", "fn LocalFunction::add_corrected_special_injections", "memory_mapping", "&HashMap<u32,u32>")
